@@ -26,6 +26,7 @@ def scripts_for(prop, tier, rng):
         s += jobgen.mixed_scripts(rng, 600 if q else 6000)
         s += rng.sample(jobgen.graceful_grid(), 300) if q else jobgen.graceful_grid()
         s += jobgen.ticket_scripts(rng, 300 if q else 3000)
+        s += jobgen.hook_scripts(rng, 500 if q else 5000)
         return s
     if prop == "C04":
         return (rng.sample(jobgen.exhaustive_pairs(), 300 if q else 1296) +
